@@ -29,6 +29,15 @@ func VerifC15EngineDelete() {
 			chs = append(chs, k)
 		}
 	}
+	// optionally a writer is still open on the virtual channel: deleting it must then be refused, and a refused
+	// delete must leave the engine's channel set as it was
+	yes, no := true, false
+	busy := verifBool("writer-open-on-virtual")
+	if busy {
+		if _, werr := db.NewStreamWriter(ctx, WriterConfig{Start: 10, Channels: []ChannelKey{virtKey}, Sync: &yes, EnableAutoCommit: &no, ErrOnUnauthorized: &no, AutoIndex: &no}); werr != nil {
+			panic(werr)
+		}
+	}
 	batch := verifBool("batch")
 	var err error
 	if batch {
@@ -38,8 +47,11 @@ func VerifC15EngineDelete() {
 		err = db.DeleteChannel(chs[0])
 	}
 	// deleting the index while the data channel stays is the one legitimate refusal
-	mustRefuse := sel[0] && !sel[1]
-	verifAssert("delete-refused-iff-index-still-indexes-a-kept-channel", (err != nil) == mustRefuse)
+	mustRefuse := (sel[0] && !sel[1]) || (busy && sel[2])
+	verifAssert("delete-refused-iff-index-still-indexes-a-kept-channel-or-channel-in-use", (err != nil) == mustRefuse)
+	if busy && sel[2] {
+		verifAssert("refused-delete-keeps-the-busy-channel", err != nil)
+	}
 	exists := func(k ChannelKey) bool {
 		_, rerr := db.RetrieveChannel(ctx, k)
 		return rerr == nil
@@ -52,10 +64,11 @@ func VerifC15EngineDelete() {
 		switch {
 		case !sel[i]:
 			verifAssert("unnamed-channel-untouched", exists(k) && dirExists(k))
+		case busy && k == virtKey:
+			verifAssert("busy-virtual-channel-survives-the-refused-delete", exists(k) && dirExists(k))
 		case err == nil:
 			verifAssert("deleted-channel-not-retrievable", !exists(k))
 			verifAssert("deleted-channel-directory-gone", !dirExists(k))
-			yes, no := true, false
 			_, werr := db.NewStreamWriter(ctx, WriterConfig{Start: 10, Channels: []ChannelKey{k}, Sync: &yes, EnableAutoCommit: &no, ErrOnUnauthorized: &no, AutoIndex: &no})
 			verifAssert("deleted-channel-not-writable", werr != nil)
 		}
